@@ -191,6 +191,42 @@ def h_max(ctx, D, P, n):
             ctx.eq(M[d, p], X[d, p, k], 'max[%d,%d] == x[argmax]' % (d, p))
 
 
+def h_tie(ctx, fname, D, P, same_object=False):
+    """maximum / minimum where some zeroth coefficients tie exactly (evaluation ON a bound,
+    maximum(x, x)): the zeroth coefficient is NumPy's maximum/minimum of the zeroth coefficients,
+    and where the two operands are the same polynomial the result is that polynomial"""
+    algopy = symx.load_algopy()
+    n = 3
+    X = O.make_input(ctx, O.Arg('utpm', (n,)), 'x', D, P)
+    Y = O.make_input(ctx, O.Arg('utpm', (n,)), 'y', D, P)
+    for p in range(P):
+        Y[0, p, 0] = X[0, p, 0]                 # tie in the value only
+        Y[:, p, 1] = X[:, p, 1]                 # identical polynomial
+        ctx.assume(X[0, p, 2] != Y[0, p, 2])    # regular entry
+    x = mk_utpm(ctx, algopy, X)
+    y = x if same_object else mk_utpm(ctx, algopy, Y)
+    if same_object:
+        Y = X
+    f = getattr(algopy, fname)
+    z = plain(f(x, y).data)
+    for p in range(P):
+        for i in range(n):
+            x0, y0 = X[0, p, i], Y[0, p, i]
+            if i == 2 and not same_object:
+                big = bool(x0 > y0)
+                ref0 = (x0 if big else y0) if fname == 'maximum' else (y0 if big else x0)
+            else:
+                ref0 = x0
+            ctx.eq(z[0, p, i], ref0, '%s zeroth coefficient [%d,%d]' % (fname, p, i))
+        k = 1
+        for d in range(D):
+            ctx.eq(z[d, p, k], X[d, p, k], '%s(u, u) == u, coefficient %d dir %d' % (fname, d, p))
+        if same_object:
+            for i in range(n):
+                for d in range(D):
+                    ctx.eq(z[d, p, i], X[d, p, i], '%s(x, x) == x [%d,%d,%d]' % (fname, d, p, i))
+
+
 DISPATCH = ['exp', 'expm1', 'log', 'log1p', 'sqrt', 'sin', 'cos', 'tan', 'arcsin', 'arccos', 'arctan', 'sinh', 'cosh',
             'tanh', 'square', 'negative', 'reciprocal', 'absolute', 'sign']
 
@@ -254,6 +290,9 @@ def units(tier, seed):
                 add('compare/x %s %s/%s' % (cmpop, rkind, shape), 'h_compare', cmpop=cmpop, rkind=rkind, shape=shape, D=2, P=1 if shape else 2)
         add('branch/x %s c' % cmpop, 'h_branch', cmpop=cmpop, D=2, P=2)
     add('max/D2,P2,n3', 'h_max', D=2, P=2, n=3)
+    for fn in ('maximum', 'minimum'):
+        add('%s with tied zeroth coefficients/D3,P2' % fn, 'h_tie', fname=fn, D=3, P=2)
+        add('%s(x, x)/D3,P2' % fn, 'h_tie', fname=fn, D=3, P=2, same_object=True)
     for f in DISPATCH + ['erf', 'erfi', 'dawsn', 'logit', 'expit', 'gammaln', 'psi', 'dot', 'sum', 'shape']:
         add('dispatch/%s' % f, 'h_dispatch', fname=f)
     return out
